@@ -168,7 +168,7 @@ func newWorld(scratch string) *world {
 	egoPath := filepath.Join(scratch, "egopath")
 	w.lib = filepath.Join(egoPath, "lib")
 
-	must(os.MkdirAll(egoPath, 0o700), "scratch")
+	must(os.MkdirAll(filepath.Join(egoPath, "oauth"), 0o700), "scratch")
 	must(copyTree(filepath.Join(os.Getenv("VERIF_REPO"), "lib"), w.lib), "copy of the library")
 
 	// the process environment names only scratch places
@@ -305,6 +305,21 @@ func newWorld(scratch string) *world {
 
 	if len(w.routes) < 90 {
 		report.Fatal("the server route table has only %d routes", len(w.routes))
+	}
+
+	for _, need := range []string{"POST /oauth2/token", "GET /services/admin/oauth/callback", "POST /services/admin/down/", "GET /services/hello"} {
+		found := false
+
+		for _, f := range w.routes {
+			if f.Method+" "+f.Endpoint == need {
+				found = true
+			}
+		}
+
+		if !found {
+			b, _ := os.ReadFile(w.logFile)
+			report.Fatal("the route table lacks %s; server log: %s", need, lastLines(string(b), 12))
+		}
 	}
 
 	// --- bearer tokens
@@ -468,7 +483,7 @@ func (w *world) usersDiffer() bool {
 		return true
 	}
 
-	have := auth.AuthService.ListUsers(0)
+	have := auth.AuthService.ListUsers(false)
 	if len(have) != len(want) {
 		return true
 	}
